@@ -55,6 +55,7 @@ type DocSc struct {
 	Reuse    int      `json:"reuse"`
 	Variant  int      `json:"variant"` // 0 FontNormal, 1 FontSubscript, 2 FontSuperscript
 	Style    int      `json:"style"`   // 0 regular, 1 italic requested from a family without an italic font (faux italic)
+	Feat     int      `json:"feat"`    // OpenType features set with SetFeatures: 0 none, 1 "-kern", 2 "-liga"
 	Texts    []TextSc `json:"texts"`
 }
 type HistCall struct {
@@ -334,6 +335,7 @@ type pathRec struct {
 	Yoff0   int         `json:"yoff0"`
 	Tw      int         `json:"tw"`
 	Ret     int         `json:"ret"`
+	Sw      int         `json:"sw"` // width of the single span a text line of the same string gets, font units (-1: several spans)
 	Split   bool        `json:"split"`
 	Grid    bool        `json:"grid"`
 	errText string
@@ -436,6 +438,9 @@ func render(s *Scenario) (res *rendered, ms []core.Mismatch) {
 				}
 			}
 		}
+	}
+	if d.Feat != 0 {
+		fam.SetFeatures([]string{"", "-kern", "-liga"}[d.Feat])
 	}
 	style := canvas.FontRegular
 	if d.Style == 1 {
@@ -608,6 +613,15 @@ func observePath(face *canvas.FontFace, str string, rf *refFont) *pathRec {
 	scale := face.Size / float64(rf.sfnt.Head.UnitsPerEm) // the face's scale; not face.MmPerEm, which is what is being checked
 	pr.Tw = unitsOf(face.TextWidth(str), scale)
 	pr.Ret = unitsOf(adv, scale)
+	pr.Sw = -1
+	nspans := 0
+	canvas.NewTextLine(face, str, canvas.Left).WalkSpans(func(x, y float64, span canvas.TextSpan) {
+		nspans++
+		pr.Sw = unitsOf(span.Width, scale)
+	})
+	if nspans != 1 {
+		pr.Sw = -1
+	}
 	segs, derr := oracle.Decode(p.Data())
 	if derr != nil {
 		pr.Split = false
@@ -1017,7 +1031,7 @@ func describe(s *Scenario) string {
 	for i, t := range d.Texts {
 		parts = append(parts, fmt.Sprintf("%s:%q", t.Mode, cpString(s.Cps[i])))
 	}
-	return fmt.Sprintf("font=%s subset=%v compress=%v reusedFontObject=%d texts=[%s]", map[int]string{1: "DejaVuSerif.ttf", 2: "EBGaramond12-Regular.otf", 3: "Dynalight-Regular.otf"}[d.Font]+[]string{"", " subscript", " superscript"}[d.Variant]+[]string{"", " faux-italic"}[d.Style], d.Subset, d.Compress, d.Reuse, strings.Join(parts, " "))
+	return fmt.Sprintf("font=%s subset=%v compress=%v reusedFontObject=%d texts=[%s]", map[int]string{1: "DejaVuSerif.ttf", 2: "EBGaramond12-Regular.otf", 3: "Dynalight-Regular.otf"}[d.Font]+[]string{"", " subscript", " superscript"}[d.Variant]+[]string{"", " faux-italic"}[d.Style]+[]string{"", " features=-kern", " features=-liga"}[d.Feat], d.Subset, d.Compress, d.Reuse, strings.Join(parts, " "))
 }
 
 func toMismatches(s *Scenario, fails map[string]int, trace []byte) []core.Mismatch {
